@@ -14,9 +14,9 @@ HERE = os.path.dirname(os.path.abspath(__file__))
 # --------------------------------------------------------------------------- audit overlay
 # property-level corrections: (version, section, type, property) -> updates
 PROP_AUDIT = {
-    # 2.0 library spells the property 'encapsulates_by_ref'; I cannot confirm the 2.0 spelling offline,
-    # so the property is neither generated nor judged (DESIGN section 8).
-    ("2.0", "types", "network-traffic", "encapsulates_by_ref"): {"unmodelled": True},
+    # The 2.0 library spelled this property 'encapsulates_by_ref' and the bootstrap copied that into v20.json.  STIX 2.0 Part 4
+    # (network-traffic) names it 'encapsulated_by_ref' ("links to another network-traffic object which encapsulates this object"),
+    # as 2.1 does; an independent reader recalled the same.  v20.json now carries the specification's name (round 7).
     # 2.0 marking-definition.created: generated with exactly three fractional digits (what the 2.0 text asks of
     # 'created'), but the digit count of the output is not judged (DESIGN section 8: the library's handling
     # of this one slot is deliberately irregular and I cannot settle the intended rule offline).
